@@ -346,7 +346,7 @@ def check(case):
                                 sg_.i6 = (1 + np.log(16 * g.r / sg_.seg_len)) / np.pi / g.r
                         m3.pulses.reset()
                         m3.compute()
-                        if abs(zfeed(m3) - ze) <= lim * abs(z1) and any(d[1] for d in dist):
+                        if abs(zfeed(m3) - ze) <= lim * max(abs(z1), abs(ze), abs(zfeed(m3))) and any(d[1] for d in dist):
                             sig = 'dist:feed:insulated-thick-wire:self-term-uses-bare-radius'
                     except Exception:
                         pass
